@@ -90,6 +90,35 @@ def specialise(g):
     return out
 
 
+def target_of(f, e):
+    """`→field` when the collection pushed into is a local that the function returns as that field of its result (two lists of
+    the same element type are different targets), `→result` when it is the result itself, `` for parameters, `→local` otherwise"""
+    e = strip(e)
+    if e[0] in ('arg', 'upvar'):
+        return ''
+    if e[0] != 'var':
+        return ''
+    if not hasattr(f, '_ret_fields'):
+        rf = {}
+        for x in f.exits():
+            for y in walk(x['expr']):
+                if isinstance(y, tuple) and y and y[0] == 'agg' and not y[1].endswith(('Result::Ok', 'Option::Some', 'Result::Err')):
+                    for fl, v in y[2]:
+                        v0 = strip(v)
+                        if v0[0] == 'var':
+                            rf.setdefault(v0[1], set()).add(fl)
+            x0 = strip(x['expr'])
+            while x0[0] == 'agg' and x0[1].endswith(('Result::Ok', 'Option::Some')) and x0[2]:
+                x0 = strip(x0[2][0][1])
+            if x0[0] == 'var':
+                rf.setdefault(x0[1], set()).add('result')
+        f._ret_fields = rf
+    fs = f._ret_fields.get(e[1])
+    if fs == {'result'}:
+        return ''           # accumulate-and-return: the list is what the function builds
+    return '→' + '/'.join(sorted(fs)) if fs else '→local'
+
+
 def events_of_block(P, f, bi, groups):
     t = f.term(bi)
     if t['k'] != 'Call' or not t.get('callee'):
@@ -147,7 +176,12 @@ def events_of_block(P, f, bi, groups):
         return [('call', bufs[0] if bufs else '?', cidn(p) + ('<%s>' % ';'.join(tga) if tga else ''), ','.join(consts))]
     if re.search(r'Vec::<T, A>::push$', p) and len(args) == 2:
         ty = re.sub(r"'\w+ ?", '', t['args'][0].get('place', {}).get('ty', '')).replace('&mut ', '').replace('grammar::', '').replace('std::vec::', '')
-        return [('push', ty, cons(args[1], f))]
+        return [('push', ty + target_of(f, args[0]), cons(args[1], f))]
+    if re.search(r'Extend<.*>>::extend$|Vec::<T, A>::(append|extend_from_slice|insert)$', p) and len(args) >= 2 and not (
+            p.endswith('::extend') and is_call(strip(args[1]), 'Iterator::map') and strip(strip(args[1])[2][1])[0] == 'closure'):
+        # one collection poured into another: where the elements end up (and in which order) is part of what is built
+        ty = re.sub(r"'\w+ ?", '', t['args'][0].get('place', {}).get('ty', '')).replace('&mut ', '').replace('grammar::', '').replace('std::vec::', '')
+        return [('pour:' + p.split('::')[-1], ty + target_of(f, args[0]), cons(args[1], f))]
     if re.search(r'Extend<.*>>::extend$', p) and len(args) == 2:
         # `v.extend(xs.into_iter().map(|x| build(x)))` is the loop `for x in xs { v.push(build(x)) }` when the closure only
         # builds a value (no token events of its own): a push of what the closure returns, for each element
@@ -162,7 +196,7 @@ def events_of_block(P, f, bi, groups):
                 m_ = re.match(r'^Vec<(.*)>$', ty)
                 rty = rty or (m_.group(1) if m_ else '')
                 CONSUMED.add(cidn(cf.id))
-                return [('extend-push', ty, 'var:%s[%s]' % (rty[:40], '|'.join(alts)[:200]))]
+                return [('extend-push', ty + target_of(f, args[0]), 'var:%s[%s]' % (rty[:40], '|'.join(alts)[:200]))]
     if re.search(r'AddAssign<.*>>::add_assign$|String::push_str$|String::push$', p) and len(args) == 2:
         return [('append', cons(args[1], f))]
     if p.startswith('grammar::') and re.search(r'::(push|join|insert)$', p):
